@@ -912,8 +912,13 @@ func (ex *Exec) recordViolation(st *State, kind, site, msg string, cond *Term) {
 				args = append(args, ex.inputArrs[n])
 			}
 			tmpl := k.Constraint
-			// named inputs are referenced directly by their SMT names
-			kc = ex.tb.Raw(tmpl, BoolSort, args...)
+			// named inputs are referenced directly by their SMT names; a constraint that mentions an input this
+			// harness path never declared cannot describe this violation
+			if ex.mentionsUndeclared(tmpl) {
+				kc = ex.tb.False()
+			} else {
+				kc = ex.tb.Raw(tmpl, BoolSort, args...)
+			}
 		}
 		knownCs = append(knownCs, kc)
 		knownIdx = append(knownIdx, i)
@@ -986,4 +991,27 @@ func (ex *Exec) modelTerms(st *State) []*Term {
 		ts = append(ts, ex.indexTerms(st)...)
 	}
 	return ts
+}
+
+var smtBuiltins = map[string]bool{"and": true, "or": true, "not": true, "=": true, "=>": true, "ite": true, "distinct": true, "_": true,
+	"extract": true, "zero_extend": true, "sign_extend": true, "concat": true, "true": true, "false": true, "select": true, "let": true,
+	"bvadd": true, "bvsub": true, "bvmul": true, "bvand": true, "bvor": true, "bvxor": true, "bvnot": true, "bvneg": true, "bvshl": true, "bvlshr": true,
+	"bvashr": true, "bvult": true, "bvule": true, "bvugt": true, "bvuge": true, "bvslt": true, "bvsle": true, "bvsgt": true, "bvsge": true,
+	"bvudiv": true, "bvurem": true, "bvsdiv": true, "bvsrem": true, "BitVec": true}
+
+// mentionsUndeclared reports whether an SMT-LIB constraint refers to a symbol that is neither a builtin nor a declared input.
+func (ex *Exec) mentionsUndeclared(c string) bool {
+	for _, tok := range tokenize(c) {
+		if tok == "(" || tok == ")" || smtBuiltins[tok] {
+			continue
+		}
+		if tok[0] == '#' || (tok[0] >= '0' && tok[0] <= '9') {
+			continue
+		}
+		name := strings.Trim(tok, "|")
+		if _, ok := ex.tb.vars[name]; !ok {
+			return true
+		}
+	}
+	return false
 }
